@@ -22,10 +22,19 @@ func init() {
 		Title: "Every response reaches exactly the request that carries its token",
 		Rule: "1-6 caller tasks x 1-4 requests (Get/Delete/Do with caller-chosen tokens, incl. tokens equal to an outstanding one) on one real connection (UDP, DTLS shim, TCP, TLS shim; block-wise on/off; limiter off/2); a scripted peer answers in any order - piggybacked, empty-ACK-then-separate (CON/NON), delayed across ticks, duplicated, plus forged answers for unknown and already-completed tokens; " +
 			"non-trivial = at least two requests were outstanding at the same time; distinct = distinct event-log hash",
-		Scenarios: []Scenario{{Name: "S-REQ/scripted-peer", Weight: 1, Run: c03Run}},
-		Quick:     200000,
-		Thorough:  3000000,
-		Require:   []string{"requests.concurrentlyOutstanding", "token.differsOnlyInLeadingZeros", "token.collision", "msg.dup", "msg.forged", "blockwise.continuationServed"},
+		Scenarios: []Scenario{{Name: "S-REQ/scripted-peer", Weight: 8, Run: c03Run},
+			// responses are pooled objects: when the application is done with a response before the receive path is (a
+			// middleware parked after the handler chain), the object must not end up with two owners - two callers
+			// would share one response. The workload and tracker of C12, reporting under C03.
+			{Name: "S-REQ/early-release", Weight: 1, Run: func(e *Env) {
+				e.RuleRename = [2]string{"C12.", "C03.P"}
+				e.Pool.Enabled = true
+				e.PoolCapacity = []uint32{1, 2, 1024}[e.Tape.Choose(3)]
+				c12Middleware(e)
+			}}},
+		Quick:    200000,
+		Thorough: 3000000,
+		Require:  []string{"requests.concurrentlyOutstanding", "token.differsOnlyInLeadingZeros", "token.collision", "msg.dup", "msg.forged", "blockwise.continuationServed"},
 		Assume: []string{
 			"on datagram transports the scripted peer emits a separate response only after its empty ACK was delivered (the lost/overtaken-ACK case is C06's known finding and is kept out of this check)",
 			"a second request invoked after the first one's answer was already handed to the connection may be accepted or rejected (A.1)",
